@@ -20,6 +20,9 @@ type accusation struct {
 	AltMeta bool   `json:"alt_meta,omitempty"`
 	AltVsn  bool   `json:"alt_vsn,omitempty"`
 	Inc     uint32 `json:"inc_resolved,omitempty"`
+	// Kind == "batch": several accusations that arrive at the same instant (one compound packet, or
+	// one packet each from two peers)
+	Batch []accusation `json:"batch,omitempty"`
 }
 
 func genAccusation(rng *rand.Rand, last bool) accusation {
@@ -28,6 +31,21 @@ func genAccusation(rng *rand.Rand, last bool) accusation {
 		Rel:  []string{"-1", "0", "0", "+1", "+1", "+1000"}[rng.Intn(6)],
 		Path: []string{"packet", "compound", "ping-piggyback", "compress", "pp", "ppjoin"}[rng.Intn(6)],
 		From: []string{"x", "y", "ghost"}[rng.Intn(3)],
+	}
+	if !last && rng.Intn(8) == 0 {
+		b := accusation{Kind: "batch", Rel: "-", Path: []string{"compound", "two-senders"}[rng.Intn(2)]}
+		for k := 2 + rng.Intn(3); k > 0; k-- {
+			sub := accusation{
+				Kind: []string{"suspect", "dead", "left", "alive"}[rng.Intn(4)],
+				Rel:  []string{"-1", "0", "+1", "+1", "+3", "+1000"}[rng.Intn(6)],
+				From: []string{"x", "y", "ghost"}[rng.Intn(3)],
+			}
+			if sub.Kind == "alive" {
+				sub.AltMeta = true
+			}
+			b.Batch = append(b.Batch, sub)
+		}
+		return b
 	}
 	if last && rng.Intn(2) == 0 {
 		a.Rel = "far"
@@ -79,6 +97,107 @@ func runC02Seq(run *Run, seed int64, cfg c01Cfg, seq []accusation) (out []*c01Re
 			return
 		}
 		own := self.Incarnation
+		if a.Kind == "batch" {
+			var msgs [][]byte
+			var mustMax uint32
+			nMust := 0
+			for bi := range a.Batch {
+				sub := &a.Batch[bi]
+				var binc uint32
+				switch sub.Rel {
+				case "-1":
+					binc = own - min(own, 1)
+				case "0":
+					binc = own
+				case "+1":
+					binc = own + 1
+				case "+3":
+					binc = own + 3
+				default:
+					binc = own + 1000
+				}
+				sub.Inc = binc
+				switch sub.Kind {
+				case "suspect":
+					msgs = append(msgs, Enc(TSuspect, &WSuspect{Incarnation: binc, Node: "V", From: sub.From}))
+				case "dead":
+					msgs = append(msgs, Enc(TDead, &WDead{Incarnation: binc, Node: "V", From: sub.From}))
+				case "left":
+					msgs = append(msgs, Enc(TDead, &WDead{Incarnation: binc, Node: "V", From: "V"}))
+				default:
+					msgs = append(msgs, Enc(TAlive, &WAlive{Incarnation: binc, Node: "V", Addr: self.Addr, Port: self.Port, Meta: []byte("someone-elses-meta"), Vsn: self.Vsn[:]}))
+				}
+				if binc >= own {
+					nMust++
+					mustMax = max(mustMax, binc)
+				}
+			}
+			if a.Path == "compound" {
+				x.Send(MakeCompound(msgs))
+			} else {
+				for mi, mm := range msgs {
+					if mi%2 == 0 {
+						x.Send(mm)
+					} else {
+						y.Send(mm)
+					}
+				}
+			}
+			Settle(time.Millisecond)
+			after := rig.Snap()
+			ra := after.Rec("V")
+			run.Eval(1)
+			judged++
+			run.Cell("accuse", "batch", fmt.Sprintf("must=%d", min(nMust, 3)), a.Path)
+			desc := fmt.Sprintf("step %d batch %+v own-before=%d after=[%s]", si, a.Batch, own, recString(ra))
+			if ra == nil || ra.State != memberlist.StateAlive {
+				fail("invariant/self-not-alive", "after a batch of accusations the node does not hold itself alive: %s", desc)
+				return
+			}
+			if _, ok := after.Members["V"]; !ok {
+				fail("invariant/self-not-listed", "node missing from its own Members(): %s", desc)
+				return
+			}
+			if !bytes.Equal(ra.Addr, self.Addr) || ra.Port != self.Port || !bytes.Equal(ra.Meta, self.Meta) {
+				fail("invariant/self-addr-changed", "own address/meta changed: %s", desc)
+				return
+			}
+			if nMust > 0 {
+				if ra.Incarnation <= mustMax || ra.Incarnation <= own {
+					fail("refute/incarnation/batch", "incarnation not strictly above every accusation of the batch (highest %d, own before %d, after %d): %s", mustMax, own, ra.Incarnation, desc)
+					return
+				}
+				found := false
+				for _, qe := range after.Queued {
+					var al WAlive
+					if len(qe.Msg) > 0 && qe.Msg[0] == TAlive && mpDecode(qe.Msg[1:], &al) == nil && al.Node == "V" && al.Incarnation == ra.Incarnation &&
+						bytes.Equal(al.Addr, self.Addr) && al.Port == self.Port && bytes.Equal(al.Meta, self.Meta) && bytes.Equal(al.Vsn, self.Vsn[:]) {
+						found = true
+					}
+				}
+				if !found {
+					fail("refute/no-alive-queued/batch", "no alive message carrying the final incarnation %d and the node's own description is queued: %s", ra.Incarnation, desc)
+					return
+				}
+				lo, hi := min(before.Health+1, maxHealth), min(before.Health+nMust, maxHealth)
+				if after.Health < lo || after.Health > hi {
+					fail("refute/health/batch", "health score %d -> %d, expected within [%d,%d] after %d accusations to refute: %s", before.Health, after.Health, lo, hi, nMust, desc)
+				}
+			} else {
+				if ra.Incarnation != own || after.Health != before.Health || countAliveAbout(after.Queued, "V") > countAliveAbout(before.Queued, "V") {
+					fail("stale/batch", "a batch of stale claims about self changed something (inc %d -> %d, health %d -> %d): %s", own, ra.Incarnation, before.Health, after.Health, desc)
+					return
+				}
+			}
+			rig.C.CheckQuiescent()
+			for _, p := range rig.C.Problems() {
+				out = append(out, &c01Result{p.Key, p.What + " | " + desc})
+			}
+			if len(out) > 0 {
+				return
+			}
+			continue
+		}
 		var inc uint32
 		switch a.Rel {
 		case "-1":
@@ -376,7 +495,7 @@ func runC02Restart(run *Run, seed int64, deadFirst bool, bumps int) (out []*c01R
 
 func TestC02(t *testing.T) {
 	run := NewRun(t, "C02", "exploration",
-		"(a) one real node + fake peers: PRNG sequences of accusations about the node itself (suspect, dead, self-dead, alive newer / equal with other meta or versions / identical / other address, UpdateNode in between) x incarnation relation {own-1, own, own+1, own+1000, 2^32-2-k} x path {packet, compound, piggybacked on a ping, compressed, push/pull, join push/pull}; after each: self record alive and listed, address unchanged, the ping is still acked; an accusation at >= own incarnation => incarnation strictly above it, an alive message with exactly that incarnation and the node's own address/meta/versions queued, health +1 (clamped); a stale one => no change at all. (b) 4-node clusters where a node is restarted on the same address while peers remember a higher incarnation (alive or already dead); the invariant monitor runs at every poll. Cell = (kind, relation, path).")
+		"(a) one real node + fake peers: PRNG sequences of accusations about the node itself (suspect, dead, self-dead, alive newer / equal with other meta or versions / identical / other address, UpdateNode in between) x incarnation relation {own-1, own, own+1, own+1000, 2^32-2-k} x path {packet, compound, piggybacked on a ping, compressed, push/pull, join push/pull}; after each: self record alive and listed, address unchanged, the ping is still acked; an accusation at >= own incarnation => incarnation strictly above it, an alive message with exactly that incarnation and the node's own address/meta/versions queued, health +1 (clamped); a stale one => no change at all; every 8th step is a BATCH of 2-4 accusations arriving at the same instant (one compound packet, or packets from two peers): final incarnation strictly above every accusation at >= the prior own incarnation, one alive with the final incarnation and the node's own description queued, health up by between 1 and the number of such accusations (clamped), all-stale batches change nothing. (b) 4-node clusters where a node is restarted on the same address while peers remember a higher incarnation (alive or already dead); the invariant monitor runs at every poll. Cell = (kind, relation, path).")
 	defer run.Finish()
 	run.Assume("an alive claim naming the node from a different address is a competing claimant (judged by C08), only the invariants are asserted for it", "a push/pull whose entries fail the version compatibility check is rejected as a whole (C09)")
 	cfgs := []c01Cfg{{"", false, false, 0}, {"lbl", true, false, 0}, {"", false, true, 0}}
@@ -416,6 +535,9 @@ func TestC02(t *testing.T) {
 				run.Violation(id, r.Key, r.What, map[string]any{"cfg": cfgs[ci%len(cfgs)].String(), "seq": seq})
 			}
 		}
+	}
+	if !run.Replaying() {
+		run.Require("accuse|batch|must=2|compound", "accuse|batch|must=2|two-senders", "accuse|batch|must=3|compound", "accuse|batch|must=3|two-senders")
 	}
 	n := run.Pick(500, 160000)
 	for i := 0; i < n; i++ {
